@@ -42,6 +42,8 @@ pub enum SchedKind {
 
 pub const N_BUGGIFY: usize = 4;
 pub const N_PROBES: usize = 40;
+/// Event code (outside the probe range) passed to the event hook by `atomic_store` itself.
+pub const OWNER_ONLY_STORE: u32 = 1000;
 pub const N_OPKINDS: usize = 32;
 
 #[derive(Clone, Debug)]
@@ -2175,6 +2177,14 @@ pub(crate) fn atomic_store(
         return;
     }
     let li = loc_index(rt, meta, hint, old_mirror, is_ptr);
+    // Plain stores to words that only the owner of a thread node ever writes are reported to the
+    // harness with the word's address (ownership monitor, C11).
+    let cls = rt.locs[li].class;
+    if matches!(cls, LocClass::ActiveAddr | LocClass::SpaceOffer) {
+        if let Some(h) = rt.event_hook {
+            h(OWNER_ONLY_STORE, meta as *const _ as usize);
+        }
+    }
     let (t, ts) = rt.tick();
     let rel = if is_rel(ord) {
         rt.threads[t].clock
